@@ -87,7 +87,7 @@ def case_st(draw):
             "footer": draw(st.sampled_from(["", "", "the end"])),
             "comments": draw(st.sampled_from(["# ", "# ", "% ", "//"])),
             "writer": draw(st.sampled_from(["numpoly", "numpoly", "numpy"])),
-            "target": draw(st.sampled_from(["str", "path", "stringio", "file"])),
+            "target": draw(st.sampled_from(["str", "path", "stringio", "file", "str", "path", "gz", "bz2"])),
         })
     return case
 
@@ -226,8 +226,11 @@ def check_case(case, ctx):
     with tempfile.TemporaryDirectory() as tmp:
         path = os.path.join(tmp, "poly.txt")
         t = case["target"]
+        if t in ("gz", "bz2"):
+            # numpy.savetxt compresses by file name and numpy.loadtxt reads such files transparently
+            path = path + "." + t
         try:
-            if t == "str":
+            if t in ("str", "gz", "bz2"):
                 writer(path, p, **kw)
             elif t == "path":
                 writer(pathlib.Path(path), p, **kw)
@@ -241,9 +244,15 @@ def check_case(case, ctx):
                     writer(fh, p, **kw)
         except Exception as err:
             return fail("savetxt-exception:%s:%s" % (type(err).__name__, cls), repr(err))
-        text = open(path).read()
+        if t in ("gz", "bz2"):
+            import bz2
+            import gzip
+            with (gzip.open if t == "gz" else bz2.open)(path, "rt") as fh:
+                text = fh.read()
+        else:
+            text = open(path).read()
         try:
-            if t == "str":
+            if t in ("str", "gz", "bz2"):
                 q = numpoly.loadtxt(path, **lkw)
             elif t == "path":
                 q = numpoly.loadtxt(pathlib.Path(path), **lkw)
